@@ -1,0 +1,51 @@
+//go:build verif
+
+// Contracts for contract-based deductive verification (govc, /verif).
+// This file contains comments only; it adds no code to the package.
+
+package aurora
+
+//@ opaque github.com/gauss-project/aurorafs/pkg/boson.Address as Addr
+
+//@ # ---- assumed: addresses as values, signature recovery, overlay derivation, multiaddress parsing -----
+//@ spec func addrBytes(a boson.Address) Bytes
+//@ spec func addrOf(b Bytes) boson.Address
+//@ axiom addr-bytes-of: forall b Bytes :: addrBytes(addrOf(b)) == b
+//@ extern func (github.com/gauss-project/aurorafs/pkg/boson.Address).Bytes
+//@   ensures seq(result) == addrBytes(a)
+//@   assigns nothing
+//@ extern func github.com/gauss-project/aurorafs/pkg/boson.NewAddress
+//@   ensures result == addrOf(seq(b))
+//@   assigns nothing
+//@ # the public key recovered from a signature over a digest (a function of both; unforgeability is
+//@ # the cryptographic assumption behind "changing any value makes the record rejected")
+//@ spec func recX(sig Bytes, data Bytes) int
+//@ spec func recY(sig Bytes, data Bytes) int
+//@ extern func github.com/gauss-project/aurorafs/pkg/crypto.Recover
+//@   ensures result1 == nil ==> result0 != nil && result0.X != nil && result0.Y != nil && bigval(result0.X) == recX(seq(signature), seq(data)) && bigval(result0.Y) == recY(seq(signature), seq(data))
+//@   assigns nothing
+//@ # overlay address of a public key in a network
+//@ spec func ovlOf(x int, y int, nid int) Bytes
+//@ extern func github.com/gauss-project/aurorafs/pkg/crypto.NewOverlayAddress
+//@   ensures result1 == nil ==> addrBytes(result0) == ovlOf(bigval(p.X), bigval(p.Y), int(networkID))
+//@   assigns nothing
+//@ spec func maOfBytes(b Bytes) int
+//@ extern func github.com/multiformats/go-multiaddr.NewMultiaddrBytes
+//@   ensures result1 == nil ==> result0 != nil && ref(result0) == maOfBytes(seq(b))
+//@   assigns nothing
+
+//@ # the signed data: "aurorafs-handshake-" || underlay || overlay || big-endian network id
+//@ # (a function of the three values; the concatenation itself is not re-verified)
+//@ spec func signData(u Bytes, o Bytes, nid int) Bytes
+//@ func generateSignData
+//@   trusted
+//@   ensures seq(result) == signData(seq(underlay), seq(overlay), int(networkID))
+//@   assigns nothing
+
+//@ # a record is accepted only if the signature over (underlay, overlay, network id) recovers a key whose
+//@ # overlay in this network is the claimed overlay; the accepted record carries exactly the inputs
+//@ func ParseAddress
+//@   property C34
+//@   ensures accepted-only-if-the-signature-binds-all-four: result1 == nil ==> seq(overlay) == ovlOf(recX(seq(signature), signData(seq(underlay), seq(overlay), int(networkID))), recY(seq(signature), signData(seq(underlay), seq(overlay), int(networkID))), int(networkID))
+//@   ensures record-carries-the-inputs: result1 == nil ==> result0 != nil && result0.Overlay == addrOf(seq(overlay)) && result0.Signature == signature && result0.Underlay != nil && ref(result0.Underlay) == maOfBytes(seq(underlay))
+//@   ensures rejected-returns-nothing: result1 != nil ==> result0 == nil
